@@ -138,6 +138,35 @@ def rule_hooks(ctx):
     ctx.ob('C15.hooks', f'{lb.fq}:operand-order', ok, 'list algebra keeps (a, b) operand order on every branch', lb.node, lb.module)
 
 
+def rule_order(ctx, rid='C15.order', families=None, least=10):
+    from .. import opflow
+    ctx.rule(rid, 'in every method of every composition class (Unop/Binop/Narop x Function/Stream/Pattern), on every path, each '
+                  '`self.selector(...)` call and each hand-over of `self.selector` to a sibling class passes the operands in '
+                  'constructor order: (a), (a, b) or (a, *args) with args element-wise, unfiltered and in order')
+    repo = ctx.repo
+    n = 0
+    for cfq, un, bi_, na, conv in (families or FAMILIES):
+        mod = repo.cls(cfq).module
+        for cname, order, fields in ((un, ['a'], {'a': 'f'}), (bi_, ['a', 'b'], {'a': 'f', 'b': 'f'}),
+                                     (na, ['a', 'args'], {'a': 'f', 'args': 'seq'})):
+            ci = mod.classes.get(cname)
+            ctx.require(ci is not None, rid, f'{cname} vanished from {mod.name}')
+            exp = opflow.expected_for(order, fields)
+            k = 0
+            for mname, f in sorted(ci.methods.items()):
+                if mname in ('__init__', '__repr__', 'reset'):
+                    continue
+                for call, pos, deleg in opflow.selector_calls(f.node, fields, repo=repo):
+                    k += 1
+                    n += 1
+                    ok = opflow.matches(pos, exp)
+                    what = 'hands the operands to ' + norm(call.func) if deleg else 'applies the selector'
+                    ctx.ob(rid, f'{f.fq}:{norm(call)}', ok,
+                           f'{cname}.{mname} {what} as {opflow.describe(pos)}; constructor order is {opflow.describe(exp)}', call, mod)
+            ctx.ob(rid, f'{ci.fq}:applies-selector', k >= 1, f'{cname} has no method applying or handing over its selector', ci.node, mod)
+    ctx.require(n >= least, rid, f'only {n} selector applications found')
+
+
 def rule_wrap(ctx):
     ctx.rule('C15.wrap', 'scbuiltin.unop/binop/narop: left operand hook, then right operand reflected hook with swapped arguments, '
                          'then the kernel; the wrapper keeps the kernel __name__; every builtin used by an operator method has the '
@@ -184,10 +213,19 @@ def run(ctx):
     c01.rule_sel(ctx, rid='C15.sel')
     rule_refl(ctx)
     rule_hooks(ctx)
+    rule_order(ctx)
     rule_wrap(ctx)
 
 
 MUTANTS = [
+    dict(rule='C15.order', name='Pbinop.__embed__ shortcut swaps operands for a number on the left (seed C15-b)', file='sc3/seq/pattern.py',
+         old='        # NOTE: See BinaryOpXStream implementation options. Class is not\n        # defined.\n\n', new='        # NOTE: See BinaryOpXStream implementation options. Class is not\n        # defined.\n\n    def __embed__(self, inval=None):\n        if isinstance(self.b, (int, float)):\n            stream, number = stm.stream(self.a), self.b\n        elif isinstance(self.a, (int, float)):\n            stream, number = stm.stream(self.b), self.a\n        else:\n            return (yield from super().__embed__(inval))\n        try:\n            while True:\n                inval = yield self.selector(stream.next(inval), number)\n        except stm.StopStream:\n            return inval\n\n'),
+    dict(rule='C15.order', name='Pnarop.__embed__ polls only pattern arguments, constants appended last (seed C13-b)', file='sc3/seq/pattern.py',
+         old="        stream_lst = [stm.stream(x) for x in self.args]\n        try:\n            while True:\n                a = stream_a.next(inval)\n                args = [x.next(inval) for x in stream_lst]\n                inval = yield self.selector(a, *args)",
+         new="        stream_lst = [stm.stream(x) for x in self.args if hasattr(x, '__stream__')]\n        const_lst = [x for x in self.args if not hasattr(x, '__stream__')]\n        try:\n            while True:\n                a = stream_a.next(inval)\n                args = [x.next(inval) for x in stream_lst]\n                inval = yield self.selector(a, *args, *const_lst)"),
+    dict(rule='C15.order', name='NaropStream evaluates its arguments in reverse', file='sc3/base/stream.py',
+         old="        for item in self.args:\n            res = item.next(inval)  # raises StopStream\n            args.append(res)\n        return self.selector(a, *args)",
+         new="        for item in reversed(self.args):\n            res = item.next(inval)  # raises StopStream\n            args.append(res)\n        return self.selector(a, *args)"),
     dict(rule='C15.sel', name='cpsmidi hands midicps', file='sc3/base/absobject.py',
          old="return self._compose_unop(bi.cpsmidi)", new="return self._compose_unop(bi.midicps)"),
     dict(rule='C15.refl', name='__rsub__ composes forward', file='sc3/base/absobject.py',
@@ -211,3 +249,9 @@ MUTANTS = [
 ]
 
 REPAIRS = []
+
+
+EQUIV = [
+    dict(name='Pbinop.__embed__ shortcut with the operands in order on both arms', file='sc3/seq/pattern.py',
+         old='        # NOTE: See BinaryOpXStream implementation options. Class is not\n        # defined.\n\n', new='        # NOTE: See BinaryOpXStream implementation options. Class is not\n        # defined.\n\n    def __embed__(self, inval=None):\n        if isinstance(self.b, (int, float)):\n            stream, number = stm.stream(self.a), self.b\n            try:\n                while True:\n                    inval = yield self.selector(stream.next(inval), number)\n            except stm.StopStream:\n                return inval\n        elif isinstance(self.a, (int, float)):\n            stream, number = stm.stream(self.b), self.a\n            try:\n                while True:\n                    inval = yield self.selector(number, stream.next(inval))\n            except stm.StopStream:\n                return inval\n        else:\n            return (yield from super().__embed__(inval))\n\n'),
+]
